@@ -1,4 +1,5 @@
 import IsalVerif.Props.C01
+import IsalVerif.Lemmas.Total
 /-!
 # C06 — the manager never loses, duplicates or strands a job; flush drains
 
@@ -148,5 +149,118 @@ theorem C06_status (P : Params) (hP : 0 < P.nl) (A : Alg D) (hA : AlgOk A) (g : 
   refine ⟨h1, fun hc => ?_⟩
   subst hc
   simp [rejects, hidle, h1]
+
+/-- **no call hangs or is lost in the model**: from the initial state every finite history of valid
+    or rejected calls runs to completion — the loop bounds `fuelFor`/`flushFuel` of the model
+    (2·lanes+4, 2·lanes+3 iterations) are never reached, i.e. `while (ctx)` / `while (1)` of the
+    context layer terminate -/
+theorem C06_total (P : Params) (hP : 0 < P.nl) (A : Alg D) (hB : 0 < A.B) (g : Cid → D) (ops : List Op) :
+    ∃ w, run P A (world0 P g) ops = some w :=
+  run_total P A hB ops _ (world0_good P hP A hB g)
+
+/-- a flush on a reachable state always returns (never out of fuel) -/
+theorem C06_flush_total (P : Params) (A : Alg D) (w : World D) (hg : Good A w) :
+    ∃ r, step P A w .flush = some r := step_total P A w .flush hg.inv.ok
+
+/-- a flush that hands a context back reduces the number of contexts held by exactly one -/
+theorem C06_flush_count (P : Params) (A : Alg D) (hB : 0 < A.B) (w : World D) (r : World D × Option Cid)
+    (h : step P A w .flush = some r) (hg : Good A w) (c' : Cid) (hc' : r.2 = some c') :
+    (occupied r.1.m).length + 1 = (occupied w.m).length ∧ c' ∈ occupied w.m ∧ c' ∉ occupied r.1.m := by
+  have sf := C06_step P A hB w .flush r h hg
+  have hg' := step_good P A hB w .flush r h hg
+  obtain ⟨hm, _, hnd⟩ := C06_inflight_iff_lane A w hg
+  obtain ⟨hm', _, hnd'⟩ := C06_inflight_iff_lane A r.1 hg'
+  have hnr : ¬ rejectedOp w .flush := by rintro ⟨c, d, f, he, _⟩; cases he
+  have hnoacc : ∀ j, ¬ acceptedSubmit w .flush j := by rintro j ⟨d, f, he, _⟩; cases he
+  have hwas : c' ∈ occupied w.m := (hm c').mp ((sf.returned_was hnr c' hc').resolve_right (hnoacc c'))
+  have hidle := (sf.returned_idle hnr c' hc').1
+  have hnot : c' ∉ occupied r.1.m := fun hin => by have := (hm' c').mpr hin; rw [hidle] at this; cases this
+  have hperm : (occupied r.1.m).Perm ((occupied w.m).erase c') := by
+    rw [List.perm_ext_iff_of_nodup hnd' (hnd.erase c')]
+    intro j
+    rw [hnd.mem_erase_iff]
+    constructor
+    · intro hj
+      refine ⟨fun e => hnot (e ▸ hj), (hm j).mp ?_⟩
+      exact (sf.no_new j ((hm' j).mpr hj)).resolve_right (hnoacc j)
+    · rintro ⟨hne, hj⟩
+      rcases sf.keep j (Or.inl ((hm j).mpr hj)) with h1 | ⟨h1, _⟩
+      · exact (hm' j).mp h1
+      · rw [hc'] at h1; cases h1; exact absurd rfl hne
+  have hlen := hperm.length_eq
+  rw [List.length_erase_of_mem hwas] at hlen
+  have : 0 < (occupied w.m).length := List.length_pos_of_mem hwas
+  exact ⟨by omega, hwas, hnot⟩
+
+/-- call flush up to `n` times, stopping at the first call that returns nothing; the contexts
+    handed back, in order -/
+def drain (P : Params) (A : Alg D) : Nat → World D → Option (World D × List Cid)
+  | 0, w => some (w, [])
+  | n+1, w =>
+    match step P A w .flush with
+    | none => none
+    | some (w', none) => some (w', [])
+    | some (w', some c) => (drain P A n w').map fun r => (r.1, c :: r.2)
+
+/-- **flush always drains**: a reachable manager holding `k` contexts is emptied by `k` flush calls,
+    which hand back exactly those `k` contexts, each once; then nothing is in flight and a further
+    flush returns nothing -/
+theorem C06_drain (P : Params) (A : Alg D) (hB : 0 < A.B) :
+    ∀ (k : Nat) (w : World D), Good A w → (occupied w.m).length = k →
+      ∃ w' cs, drain P A k w = some (w', cs) ∧ Good A w' ∧ cs.length = k ∧ cs.Nodup ∧
+        (∀ j, j ∈ cs ↔ (w.m.ctxs j).processing = true) ∧
+        (∀ j, (w'.m.ctxs j).processing = false) ∧
+        (∀ r, step P A w' .flush = some r → r.2 = none) := by
+  intro k
+  induction k with
+  | zero =>
+    intro w hg hk
+    have hocc : occupied w.m = [] := List.eq_nil_of_length_eq_zero hk
+    obtain ⟨hm, _, _⟩ := C06_inflight_iff_lane A w hg
+    have hidle : ∀ j, (w.m.ctxs j).processing = false := by
+      intro j
+      cases hp : (w.m.ctxs j).processing with
+      | false => rfl
+      | true => have := (hm j).mp hp; rw [hocc] at this; cases this
+    refine ⟨w, [], rfl, hg, rfl, List.nodup_nil, fun j => ?_, hidle, fun r hr => ?_⟩
+    · simp [hidle j]
+    · exact (C06_flush_none_iff P A hB w r hr hg).mpr hidle
+  | succ k ih =>
+    intro w hg hk
+    obtain ⟨r, hr⟩ := C06_flush_total P A w hg
+    have hg' := step_good P A hB w .flush r hr hg
+    obtain ⟨hm, _, _⟩ := C06_inflight_iff_lane A w hg
+    cases hr2 : r.2 with
+    | none =>
+      have hidle := (C06_flush_none_iff P A hB w r hr hg).mp hr2
+      have : occupied w.m = [] := by
+        cases hocc : occupied w.m with
+        | nil => rfl
+        | cons j _ =>
+          have := (hm j).mpr (by rw [hocc]; exact List.mem_cons_self)
+          rw [hidle j] at this; cases this
+      rw [this] at hk; cases hk
+    | some c' =>
+      obtain ⟨hcnt, hwas, hnot⟩ := C06_flush_count P A hB w r hr hg c' hr2
+      obtain ⟨w', cs, hd, hgw', hlen, hnd, hmem, hidle, hnone⟩ := ih r.1 hg' (by omega)
+      obtain ⟨hm', _, _⟩ := C06_inflight_iff_lane A r.1 hg'
+      have sf := C06_step P A hB w .flush r hr hg
+      have hnr : ¬ rejectedOp w .flush := by rintro ⟨c, d, f, he, _⟩; cases he
+      have hnoacc : ∀ j, ¬ acceptedSubmit w .flush j := by rintro j ⟨d, f, he, _⟩; cases he
+      have hc'cs : c' ∉ cs := fun hin => hnot ((hm' c').mp ((hmem c').mp hin))
+      refine ⟨w', c' :: cs, ?_, hgw', by simp [hlen], List.nodup_cons.mpr ⟨hc'cs, hnd⟩, fun j => ?_, hidle, hnone⟩
+      · have hrr : r = (r.1, some c') := by rw [← hr2]
+        simp only [drain]
+        rw [hr, hrr]
+        simp only [hd, Option.map_some]
+      · simp only [List.mem_cons]
+        constructor
+        · rintro (rfl | hj)
+          · exact (hm j).mpr hwas
+          · exact (sf.no_new j ((hmem j).mp hj)).resolve_right (hnoacc j)
+        · intro hj
+          rcases sf.keep j (Or.inl hj) with h1 | ⟨h1, _⟩
+          · right; exact (hmem j).mpr h1
+          · left; rw [hr2] at h1; cases h1; rfl
 
 end IsalVerif.HashMB
